@@ -50,3 +50,77 @@ Qed.
 Check C03_merge_check_sound. Check C03_merge_length. Check C03_sync_numbers.
 Print Assumptions C03_merge_check_sound.
 Print Assumptions C03_sync_numbers.
+
+(* ------------------------------------------------------------------ the other naming schemes, the asynchronous writer *)
+Require Import FL.Flw.NumDInv FL.Flw.NumDRun FL.Flw.NumDTheorems FL.Flw.TsTime FL.Flw.TsNames FL.Flw.TsInv FL.Flw.TsRun
+  FL.Flw.TsTheorems FL.Flw.TsdInv FL.Flw.TsdRun FL.Flw.TsdTheorems FL.Flw.NumAsync FL.Flw.NumDAsync FL.Flw.TsdAsync FL.Flw.TsAsync
+  FL.Flw.AsyncMerge.
+
+(* C03_sync_numbers for NumbersDirect naming: r00000, r00001, ... hold exactly concat m *)
+Theorem C03_sync_numbersdirect :
+  forall c crit t0 off ts m, numdcfg c crit -> Merge ts m ->
+    exists files, direct_view c (wfs (s_w (fst (run (sys0 t0 off) (OStart c :: List.map OWrite m ++ [OStop]))))) files
+      /\ concat files = concat m.
+Proof.
+  intros c crit t0 off ts m Hc _.
+  destruct (numbersdirect_stream c crit t0 off (List.map OWrite m) Hc (basic_writes m)) as [files [R E]]. exists files.
+  split; [exact R|]. rewrite E. apply written_writes.
+Qed.
+
+(* ... for TimestampsDirect naming: the files named by the keys (time stamp, restart number), in the order of the keys *)
+Theorem C03_sync_timestampsdirect :
+  forall c crit t0 off ts m, tsdcfg c crit -> tag_ok c -> Merge ts m ->
+    (0 <= t0 + ts_e c off)%Z -> (t0 + ts_e c off < sec_max)%Z -> (N.of_nat (length m) <= usize_max)%N ->
+    exists keys files,
+      tsd_view c (ts_e c off) (wfs (s_w (fst (run (sys0 t0 off) (OStart c :: List.map OWrite m ++ [OStop]))))) keys files
+      /\ concat files = concat m /\ keys_ok keys /\ (forall k, In k keys -> fst k = t0).
+Proof.
+  intros c crit t0 off ts m Hc T _ Hlo Hhi Hmax.
+  assert (Hhi' : (t0 + elapsed (List.map OWrite m) + ts_e c off < sec_max)%Z) by (rewrite elapsed_writes; lia).
+  assert (Hmax' : (N.of_nat (length (List.map OWrite m)) <= usize_max)%N) by (rewrite map_length; exact Hmax).
+  destruct (timestampsdirect_stream_view c crit t0 off _ Hc T (basic_writes m) (tick_ok_writes m) Hlo Hhi' Hmax') as [keys [files [V [E [K Rg]]]]].
+  exists keys, files. split; [exact V|]. split; [rewrite E; apply written_writes|]. split; [exact K|].
+  intros k Hk. specialize (Rg k Hk). rewrite elapsed_writes in Rg. lia.
+Qed.
+
+(* ... for Timestamps naming: the closed files in the order of their keys, then rCURRENT *)
+Theorem C03_sync_timestamps :
+  forall c crit t0 off ts m, tscfg c crit -> tag_ok c -> Merge ts m ->
+    (0 <= t0 + ts_e c off)%Z -> (t0 + ts_e c off < sec_max)%Z -> (N.of_nat (length m) <= usize_max)%N ->
+    let f := wfs (s_w (fst (run (sys0 t0 off) (OStart c :: List.map OWrite m ++ [OStop])))) in
+    (names f = [] /\ concat m = [])
+    \/ exists keys closed cur, ts_view c (ts_e c off) f keys closed cur
+         /\ concat closed ++ cur = concat m /\ keys_ok keys /\ (forall k, In k keys -> fst k = t0).
+Proof.
+  intros c crit t0 off ts m Hc T _ Hlo Hhi Hmax. cbv zeta.
+  assert (Hhi' : (t0 + elapsed (List.map OWrite m) + ts_e c off < sec_max)%Z) by (rewrite elapsed_writes; lia).
+  assert (Hmax' : (N.of_nat (length (List.map OWrite m)) <= usize_max)%N) by (rewrite map_length; exact Hmax).
+  destruct (timestamps_stream c crit t0 off _ Hc T (basic_writes m) (tick_ok_writes m) Hlo Hhi' Hmax') as [[N0 W0] | [keys [closed [cur [V [E [K Rg]]]]]]].
+  - left. split; [exact N0|]. rewrite <- written_writes. exact W0.
+  - right. exists keys, closed, cur. split; [exact V|]. split; [rewrite E; apply written_writes|]. split; [exact K|].
+    intros k Hk. specialize (Rg k Hk). rewrite elapsed_writes in Rg. lia.
+Qed.
+
+(* The schedules made explicit (Flw/AsyncMerge.v).  Synchronous writer: the order in which the threads get the state
+   mutex (sync_conc, locked).  ASYNCHRONOUS writer: events "thread t sends its next record into the FIFO channel" and
+   "the writer thread takes the oldest message and writes it", in any order - the writer thread may lag behind -, then
+   the writer is dropped (async_conc); m = fst (sent ts evs) is the order of the sends.  For every schedule the files
+   hold exactly concat m, and when all threads have finished m is an interleaving of the threads' sequences: every
+   record exactly once, intact, each thread's records in their order. *)
+Definition C03_async_numbers := async_merge_numbers.
+Definition C03_async_numbersdirect := async_merge_numbersdirect.
+Definition C03_async_timestampsdirect := async_merge_timestampsdirect.
+Definition C03_async_timestamps := async_merge_timestamps.
+Definition C03_sched_numbers := sync_merge_numbers.
+Definition C03_sched_numbersdirect := sync_merge_numbersdirect.
+Definition C03_sched_timestampsdirect := sync_merge_timestampsdirect.
+Definition C03_sched_timestamps := sync_merge_timestamps.
+
+Check C03_async_numbers. Check C03_async_numbersdirect. Check C03_async_timestampsdirect. Check C03_async_timestamps.
+Print Assumptions C03_sync_numbersdirect.
+Print Assumptions C03_sync_timestampsdirect.
+Print Assumptions C03_sync_timestamps.
+Print Assumptions C03_async_numbers.
+Print Assumptions C03_async_numbersdirect.
+Print Assumptions C03_async_timestampsdirect.
+Print Assumptions C03_async_timestamps.
